@@ -2,7 +2,7 @@
 
 Implementation-side metamorphic checks (YAML, CSV and the command line are not in the Lean model): the
 same specification as mapping / list of groups / YAML stream / YAML file / `python -m
-ladim_plugins.release` gives identical tables; seeded repeated runs are identical; the written file
+ladim_plugins.release` gives identical tables; seeded repeated runs are identical, also when the very same mapping object is passed again; the written file
 (tab separated, no header) parses back (Python `float`, what LADiM uses) to exactly the returned
 table; missing-key configurations are rejected with an error naming exactly what is missing.
 Correspondence: `load_config` validation against the Lean `Table.validate` for every missing-key
@@ -61,6 +61,17 @@ def run(ctx):
             again = mk.make_release(dict(conf))
             ok, msg = tables_equal(ref, again)
             ctx.oracle(ok, "C18.seed.not_reproducible", SITE + "::make_release", "two seeded runs differ: " + msg, cs)
+            # the same specification *object* supplied repeatedly (a caller looping over one config)
+            import copy
+            for label, obj in (("grouped", copy.deepcopy(conf)),
+                               ("flat", dict(copy.deepcopy(groups[0]), seed=seed) if len(groups) == 1 else None)):
+                if obj is None:
+                    continue
+                runs = [mk.make_release(obj) for _ in range(3)]
+                for k, r_ in enumerate(runs):
+                    ok, msg = tables_equal(ref, r_)
+                    ctx.oracle(ok, "C18.seed.same_object_not_reproducible", SITE + "::make_release",
+                               "call %d with the same %s mapping object differs from the first seeded run: %s" % (k + 1, label, msg), cs)
             text = yaml.safe_dump(conf, sort_keys=False)
             via_stream = mk.make_release(io.StringIO(text))
             ok, msg = tables_equal(ref, via_stream)
